@@ -101,6 +101,18 @@ def gen_identity_unrecognised(seed, big):
             src = lead + pre + open_tag + body + close + tail
             out.append((dict(cfg(), mode='clean', source=src, ds=ds, de=de),
                         (lambda s_: lambda r: None if r.get('ok') and r.get('output') == s_ else 'a tag the tokenizer does not recognise was treated as an element (output differs from input): ' + json.dumps(r, ensure_ascii=False)[:200])(src)))
+    # an EMPTY tag (start delimiter directly followed by the end delimiter) is not a tag: a tag has at least one body
+    # character, so the end delimiter is looked for behind it and the span runs on to the end of the NEXT tag - the
+    # opening tag of the expired / targeted element behind it is swallowed, its closing tag is stray, nothing is ready
+    for ds, de in DELIMS + [('<!--', '-->'), ('// --', '-- //')]:
+        if ds.startswith(de[:1]):
+            continue
+        for open_tag, close in ((f"{ds}{TL} to='{PAST}'{de}", f"{ds}/{TL}{de}"), (f"{ds}{RM} name='f1'{de}", f"{ds}/{RM}{de}"),
+                                (f"{ds}{RM} name='f1' unwrap-block{de}", f"{ds}/{RM}{de}")):
+            for lead, gap in (('a\n', ''), ('a\n  ', ' '), ('', ''), ('x = 1; ', '')):
+                src = lead + ds + de + gap + open_tag + '\nold();\n  more();\n  end();\n' + close + '\nb\n'
+                out.append((dict(cfg(), mode='clean', source=src, ds=ds, de=de),
+                            (lambda s_: lambda r: None if r.get('ok') and r.get('output') == s_ else 'an empty tag in front of an opening tag swallows it (a tag has at least one body character), so nothing is ready - yet the output differs from the input: ' + json.dumps(r, ensure_ascii=False)[:200])(src)))
     # the file ends inside the end delimiter of the closing tag: the closing tag does not exist, nothing is ready
     for ds, de in DELIMS + [('<!--', '-->'), ('// --', '-- //')]:
         if len(de) < 2:
@@ -624,7 +636,8 @@ def gen_dedent_nested(seed, big):
                 elif c < 0.6:
                     removed(ind + 1, src)
                 text(ind + 1, k + 1, src, exp)
-            src.append(unit * ind + '}')
+            # ... and so may the closing wrapper line
+            src.append(unit * ind + '}' + (f" <{RM} name='f1'> legacy2(); </{RM}>" if rnd.random() < 0.3 else ''))
             src.append(unit * ind + f"</{RM}>")
         src, exp = ['q'], ['q']
         base = rnd.randint(0, 2)
@@ -914,6 +927,28 @@ def gen_lines_intact(seed, big):
                                 return f'surviving line not intact: {nb} (output {r["output"]!r})'
                             return None
                         out.append((dict(cfg(), mode='clean', source=src, ds='<', de='>'), oracle))
+    # runs of 2-5 removed sibling blocks on directly adjacent lines (their tidy intervals chain up), indented or not,
+    # at top level or inside a pending parent; the lines around the run survive byte for byte
+    for n in (2, 3, 4, 5):
+        for ind in ('', '  ', '\t'):
+            for parent in (False, True):
+                for sep in ('', '\n'):
+                    blocks = []
+                    for i in range(n):
+                        tag, close = ((f"{TL} to='{PAST}'", TL) if i % 2 == 0 else (f"{RM} name='f1'", RM))
+                        blocks.append(ind + f"<{tag}>\n" + ind + f"gone{i}();\n" + ind + f"</{close}>\n")
+                    head = (f"<{RM} name='zz'>\n" if parent else '') + ind + 'before(); é\n'
+                    tail = ind + 'after_the_blocks();\n' + 'tail();\n' + (f"</{RM}>\n" if parent else '')
+                    src = head + sep.join(blocks) + tail
+                    want = [l for l in (head + tail).split('\n') if l.strip(WS)]
+                    def oracle(r, want=want, src=src):
+                        if not r.get('ok'):
+                            return 'clean panicked: ' + str(r.get('panic'))[:160]
+                        nb = [l for l in r['output'].split('\n') if l.strip(WS)]
+                        if nb != want:
+                            return f'run of adjacent removed blocks: surviving lines {nb}, expected {want} (source {src!r})'
+                        return None
+                    out.append((dict(cfg(), mode='clean', source=src, ds='<', de='>'), oracle))
     return out
 
 
